@@ -147,6 +147,7 @@ func genC10KeySpec() {
 	sb.WriteString(fmt.Sprintf("/-- `commandKeyPositions` (%d rows): lower-case name ↦ (first, last, step) -/\n", len(cl.Elts)))
 	sb.WriteString("def commandKeyPositions : List (List UInt8 × (Int × Int × Int)) := [\n")
 	seen := map[string]bool{}
+	var posRows, extRows []string
 	for i, el := range cl.Elts {
 		kv, ok := el.(*ast.KeyValueExpr)
 		if !ok {
@@ -175,7 +176,10 @@ func genC10KeySpec() {
 		}
 		sb.WriteString(fmt.Sprintf("  (%s, (%s, %s, %s))%s  -- %q\n", c10Bytes(name),
 			c10LeanInt(t[0]), c10LeanInt(t[1]), c10LeanInt(t[2]), sep, name))
+		posRows = append(posRows, fmt.Sprintf("%s:%d,%d,%d", name, t[0], t[1], t[2]))
 	}
+	sort.Strings(posRows)
+	facts["keyspec_position_rows"] = posRows
 	sb.WriteString("]\n\n")
 	facts["keyspec_positions"] = len(cl.Elts)
 
@@ -245,7 +249,10 @@ func genC10KeySpec() {
 			sep = ""
 		}
 		sb.WriteString(fmt.Sprintf("  (%s, %s)%s  -- %q\n", c10Bytes(name), val, sep, name))
+		extRows = append(extRows, name+":"+val)
 	}
+	sort.Strings(extRows)
+	facts["keyspec_extractor_rows"] = extRows
 	sb.WriteString("]\n\n")
 	facts["keyspec_extractors"] = len(cl.Elts)
 
@@ -342,12 +349,18 @@ func genC10Consts() {
 	}
 	sb.WriteString("]\n\n")
 	facts["noroute_cmds"] = len(cl.Elts)
+	var nr []string
+	for _, el := range cl.Elts {
+		nr = append(nr, c10Str(el, "NoRouteCmds"))
+	}
+	facts["noroute_cmds_list"] = nr
 
 	cp := c10ConstString("config/var.go", "CheckpointKey")
 	ns := c10ConstString("config/var.go", "NamespacePrefixKey")
 	sb.WriteString(fmt.Sprintf("/-- config.CheckpointKey = %q -/\ndef checkpointKey : List UInt8 := %s\n\n", cp, c10Bytes(cp)))
 	sb.WriteString(fmt.Sprintf("/-- config.NamespacePrefixKey = %q -/\ndef namespacePrefixKey : List UInt8 := %s\n\n", ns, c10Bytes(ns)))
 	sb.WriteString("end GunYu.Gen\n")
+	facts["reserved_prefixes"] = []string{cp, ns}
 	writeIfChanged(filepath.Join(*out, "FilterConsts.lean"), sb.String())
 }
 
